@@ -725,3 +725,109 @@ func c19TimePerConnection(c *Ctx) {
 	}
 	c.R.Cond(good, rule, core.FuncName(begin)+": the fixed write time is the clock's", c.P.Pos(begin.Pos()), fmt.Sprintf("%d store(s), none depending on package-level state of the library", n), why)
 }
+
+// ---- C06.key-change-seen: an UPDATE that assigns another key is not taken for one that keeps it ----------
+
+func init() {
+	register(&Rule{Name: "C06.key-change-seen", Min: 1, Run: c06KeyChangeSeen,
+		Doc: "the sqlite layer's Update reaches the common layer's Update only after it compared the old key with the assigned one itself"})
+	byProp["C06"] = append(byProp["C06"], "C06.key-change-seen")
+	byProp["C08"] = append(byProp["C08"], "C06.key-change-seen")
+	explain["C06"] += " key-change-seen: the pinned binding decides 'same key -> Update, else Replace' with v0.Int() == v1.Int() (32 bits, and across storage classes): 1 and 4294967297, 1 and 1.5, 1 and '1' count as the same key, and the common Update ignores the key among the values — the statement kept the old key, changed the other columns and reported success. Every path to the common layer's Update passes the 'same' side of s3db.SameKey(old, new) or the 'key not assigned' side of the lookup of the key column among the given values."
+	explain["C08"] += " key-change-seen (shared with C06): a key written by UPDATE is stored or the statement fails."
+}
+
+func c06KeyChangeSeen(c *Ctx) {
+	const rule = "C06.key-change-seen"
+	fn := mustFunc(c, "sqlite", "*VirtualTable", "Update")
+	common := mustFunc(c, "", "*VirtualTable", "Update")
+	same := c.P.LookupFunc("", "", "SameKey")
+	if fn == nil || common == nil {
+		return
+	}
+	name := core.FuncName(fn)
+	if same == nil {
+		c.R.Bad(rule, name+": the keys are compared before the new one is ignored", c.P.Pos(fn.Pos()), "there is no s3db.SameKey: nothing compares the old key with the assigned one; the binding's 32-bit, cross-class comparison alone decides that an UPDATE keeps its key")
+		return
+	}
+	bad := ""
+	h := an.THooks{}
+	h.Branch = func(iff *ssa.If, side bool, st an.TState) an.TState {
+		cond, neg := an.StripNot(iff.Cond)
+		if cl, ok := cond.(*ssa.Call); ok && cl.Call.StaticCallee() == same && side != neg {
+			return ansState(true)
+		}
+		// "assigned" of a map lookup of the values: on its false side there is no new key
+		if ex, ok := cond.(*ssa.Extract); ok && ex.Index == 1 {
+			if lk, isLk := ex.Tuple.(*ssa.Lookup); isLk && lk.CommaOk && side == neg {
+				return ansState(true)
+			}
+		}
+		return st
+	}
+	h.Instr = func(in ssa.Instruction, st an.TState) an.TState {
+		if cl, ok := in.(ssa.CallInstruction); ok && cl.Common().StaticCallee() == common && !bool(st.(ansState)) {
+			bad = c.P.Pos(cl.Pos())
+		}
+		return st
+	}
+	an.WalkTypestate(fn, ansState(false), h, c.Scope(fn))
+	c.R.Cond(bad == "", rule, name+": the keys are compared before the new one is ignored", c.P.Pos(fn.Pos()), "the common Update is reached only with the same key, or without an assigned key",
+		"the common layer's Update at "+bad+" can be reached without the old and the assigned key having been compared: 'update t set a=4294967297 where a=1' (or a=1.5, a='1') keeps the key 1, changes the other columns and reports success")
+}
+
+// ---- C15.reads-back-exactly: what s3db_conn shows is what was set ---------------------------------------
+
+func init() {
+	register(&Rule{Name: "C15.reads-back-exactly", Min: 1, Run: c15ReadsBackExactly,
+		Doc: "the layout ConnCursor.Column formats the attributes with keeps the fraction of a second"})
+	byProp["C15"] = append(byProp["C15"], "C15.reads-back-exactly")
+	explain["C15"] += " reads-back-exactly: 'write_time and deadline … are readable back from s3db_conn' — ConnModule.Update stores the parsed time as given (time-as-given), fraction included, so the layout of every Format call in ConnCursor.Column has a fractional-seconds part behind the seconds."
+}
+
+func c15ReadsBackExactly(c *Ctx) {
+	const rule = "C15.reads-back-exactly"
+	fn := mustFunc(c, "sqlite", "*ConnCursor", "Column")
+	if fn == nil {
+		return
+	}
+	n := 0
+	var bad []string
+	// Column, the helpers split out of it, and same-package functions it calls (one level)
+	fns := append([]*ssa.Function{}, c.Scope(fn).Funcs...)
+	for _, call := range an.Calls(fn) {
+		if g := call.Common().StaticCallee(); g != nil && g.Pkg == fn.Pkg && len(g.Blocks) > 0 {
+			fns = append(fns, g)
+		}
+	}
+	seenFn := map[*ssa.Function]bool{}
+	for _, f := range fns {
+		if seenFn[f] {
+			continue
+		}
+		seenFn[f] = true
+		for _, call := range an.Calls(f) {
+			g := call.Common().StaticCallee()
+			if g == nil || an.PkgPathOf(g) != "time" || g.Name() != "Format" || len(call.Common().Args) != 2 {
+				continue
+			}
+			n++
+			k, ok := call.Common().Args[1].(*ssa.Const)
+			if !ok || k.Value == nil {
+				bad = append(bad, c.P.Pos(call.Pos())+" (layout is not a constant)")
+				continue
+			}
+			lay := k.Value.ExactString()
+			if !strings.Contains(lay, "05.9") && !strings.Contains(lay, "05.0") && !strings.Contains(lay, "05,9") && !strings.Contains(lay, "05,0") {
+				bad = append(bad, c.P.Pos(call.Pos())+" (layout "+lay+")")
+			}
+		}
+	}
+	sort.Strings(bad)
+	if n == 0 {
+		c.R.Unk(rule, core.FuncName(fn)+": attributes are shown with their fraction", c.P.Pos(fn.Pos()), "no Format call found")
+		return
+	}
+	c.R.Cond(len(bad) == 0, rule, core.FuncName(fn)+": attributes are shown with their fraction", c.P.Pos(fn.Pos()), fmt.Sprintf("%d Format call(s), each with fractional seconds in its layout", n),
+		"an attribute is formatted without the fraction of a second at "+strings.Join(bad, "; ")+": write_time='… 00:00:00.25' is applied exactly and reads back as '… 00:00:00'")
+}
